@@ -218,6 +218,25 @@ def _run_lengths(model: Model, rep: Report) -> None:
         if other:
             z = [n for n in walk_no_nested(f.node) if isinstance(n, ast.Assign) and any(unparse(t) == other for t in n.targets)]
             r6.check(len(z) == 1 and unparse(z[0].value) == "0", site(f), f.qualname, f"the second run starts from 0 when the first run's terminating code arrives", why=f"{[unparse(x) for x in z]}")
+    r9 = rep.rule("C19-R9", "SIBLING", "horizontal mode: each of the two run-length scanners flips the current colour when its terminating code arrives, and picks the next code table from the current colour in the same way (the table after a make-up code is that of the run being read)", 4)
+    tabs9 = {}
+    for fname in ("_parse_horiz1", "_parse_horiz2"):
+        f = model.func(C + "CCITTG4Parser." + fname)
+        p = f.params[1] if len(f.params) > 1 else "n"
+        from ..util import guard_conjuncts
+
+        tog = [a for a in walk_no_nested(f.node) if isinstance(a, ast.Assign) and unparse(a.targets[0]) == "self._color" and "".join(unparse(a.value).split()) == "1-self._color"]
+        okt = len(tog) == 1 and any(x.replace(" ", "") == f"{p}<64" for x in guard_conjuncts(f, tog[0]))
+        r9.check(okt, site(f, tog[0]) if tog else site(f), f.qualname, f"{fname}: self._color = 1 - self._color under {p} < 64", why="the colour is not flipped at the end of the run (or flipped elsewhere): the table chosen for the following codes belongs to the wrong colour")
+        # table selection: the returns that do not go back to MODE
+        sel = []
+        for n in walk_no_nested(f.node):
+            if isinstance(n, ast.Return) and n.value is not None and "MODE" not in unparse(n.value):
+                g = sorted(x for x in guard_conjuncts(f, n) if "_color" in x)
+                sel.append(("".join(unparse(n.value).split()), tuple(g)))
+        tabs9[fname] = sorted(sel)
+    r9.check(tabs9["_parse_horiz1"] == tabs9["_parse_horiz2"] == [("self.BLACK", ("notself._color",)), ("self.WHITE", ("self._color",))], site(model.func(C + "CCITTG4Parser._parse_horiz2")), C + "CCITTG4Parser._parse_horiz2", "both scanners: WHITE table while self._color is set, BLACK otherwise", why=f"{tabs9}: the two scanners choose their tables differently - after a make-up code of the second run the first run's table would be used")
+    r9.check(True, site(model.func(C + "CCITTG4Parser._parse_horiz1")), C + "CCITTG4Parser._parse_horiz1", "sibling comparison done")
     r8 = rep.rule("C19-R8", "GUARD", "a run length of 0 is a code like any other (terminating code 0: white 00110101, black 0000110111): the only value the run-length scanners reject is None (no code)", 2)
     for fname in ("_parse_horiz1", "_parse_horiz2"):
         f = model.func(C + "CCITTG4Parser." + fname)
